@@ -75,12 +75,19 @@ class Obs:
 
     @property
     def crashed(self):
-        """Died from a panic / signal / unexpected exit status."""
+        """Died from a panic / signal / unexpected exit status (a stack overflow is reported separately)."""
         if self.timeout:
             return False
         if self.stack_overflow:
             return False
         return self.code not in (0, 103) or b"panicked at" in self.err
+
+    @property
+    def died(self):
+        """crashed, or overflowed its stack.  Checks that judge only programs the reference model ran within
+        its small depth budget (calls <= 40, nesting <= 40, far below the host limit) use this: for such a
+        program a stack overflow is unbounded recursion, not a deep input."""
+        return self.crashed or self.stack_overflow
 
     @property
     def stack_overflow(self):
